@@ -29,6 +29,8 @@ impl Scripted {
         match self.answers.get(i).copied().unwrap_or('C') {
             'S' => ParseAction::Stop,
             'E' => ParseAction::Error(Box::new(ScriptError(i))),
+            // the consumer's error value is itself a parser state (a consumer that forwards the outcome of a nested parse)
+            'P' => ParseAction::Error(Box::new(rspirv::binary::ParseState::ConsumerStopRequested)),
             _ => ParseAction::Continue,
         }
     }
